@@ -1,6 +1,7 @@
 package gen
 
 import (
+	"math"
 	"regexp"
 	"strconv"
 )
@@ -329,6 +330,15 @@ func (g *G) litLeaf(op string, lit *Operand) *DNode {
 		return Str(lit.Str + "z")
 	}
 	f, _ := strconv.ParseFloat(lit.Num, 64)
+	if g.chance("ulp", 15) {
+		// one ULP away from the literal, on the side that satisfies (or just fails) the operator
+		switch op {
+		case "<", "<=":
+			return Num(math.Nextafter(f, math.Inf(-1)))
+		default:
+			return Num(math.Nextafter(f, math.Inf(1)))
+		}
+	}
 	switch op {
 	case "<":
 		return Num(f - 1)
@@ -481,8 +491,14 @@ func (g *G) relatedLeaf(related *Operand, re string) *DNode {
 	case LNum:
 		f, _ := strconv.ParseFloat(related.Num, 64)
 		switch {
-		case r < 4:
+		case r < 3:
 			return Num(f)
+		case r < 4:
+			// the immediate float64 neighbours: comparisons are exact, not approximate
+			if g.chance("ulpdir", 50) {
+				return Num(math.Nextafter(f, math.Inf(1)))
+			}
+			return Num(math.Nextafter(f, math.Inf(-1)))
 		case r < 5:
 			return Num(f - 1)
 		case r < 6:
